@@ -13,6 +13,21 @@ from props import cons_common as cc   # noqa: E402
 
 CONFIGS = [("eq3", [1, 1, 1, 1], 3, 3), ("eq0", [1, 1, 1, 1], 0, 3), ("w2", [2, 2, 1, 1], 2, 3)]
 GOALS = ["GoalSplitLockStale", "GoalCommitWithoutBlock", "GoalOneDecidedOthersBehind", "GoalValidVsLock"]
+# goals reached in stages: TLC searches for stage k from the final state of stage k-1 (pasted as Init)
+STAGES = {"GoalSplitLockStale": ["StageOneLockedRound1", "GoalSplitLockStale"]}
+
+
+def last_state_text(out):
+    """raw TLA+ text (conjunct list) of the last state of the first counterexample in TLC's output"""
+    import re
+    blocks = re.split(r'(?m)^State \d+: <.*>$', out)
+    if len(blocks) < 2:
+        return None
+    txt = blocks[-1]
+    cut = re.search(r'(?m)^(\d+ states generated|Error:|The number of states|Finished)', txt)
+    if cut:
+        txt = txt[:cut.start()]
+    return txt.strip()
 
 
 def main():
@@ -32,17 +47,36 @@ def main():
                     name = "%s__%s__%d" % (goal, tag, k)
                     if os.path.exists(os.path.join(outdir, name + ".json")):
                         continue
-                    mc = cc.net_mc(ctx, "SynthP_" + name, info, byz, mr, lazy=False, view=False, invariants=["No" + goal])
-                    r = ctx.tlc(mc, mc + ".cfg", simulate="num=100000000", depth=90, seed=ctx.seed * 100 + k,
-                                timeout=budget, label=name)
-                    if not r.violations:
-                        core.log("goal %s not reached in %ds" % (name, budget))
+                    steps, init_txt, ok = [], None, True
+                    for si, stage in enumerate(STAGES.get(goal, [goal])):
+                        mcname = "SynthP_%s_s%d" % (name, si)
+                        mc = cc.net_mc(ctx, mcname, info, byz, mr, lazy=False, view=False, invariants=["No" + stage])
+                        if init_txt is not None:
+                            d = ctx.spec_copy()
+                            with open(os.path.join(d, mcname + ".tla")) as f:
+                                txt = f.read()
+                            txt = txt.replace("====", "StageInit ==\n" + init_txt + "\n====")
+                            with open(os.path.join(d, mcname + ".tla"), "w") as f:
+                                f.write(txt)
+                            with open(os.path.join(d, mcname + ".cfg")) as f:
+                                c = f.read()
+                            with open(os.path.join(d, mcname + ".cfg"), "w") as f:
+                                f.write(c.replace("INIT Init", "INIT StageInit"))
+                        r = ctx.tlc(mc, mc + ".cfg", simulate="num=100000000", depth=90, seed=ctx.seed * 100 + k + 7 * si,
+                                    timeout=budget, label=mcname)
+                        if not r.violations:
+                            core.log("stage %s of %s not reached in %ds" % (stage, name, budget))
+                            ok = False
+                            break
+                        steps += cc.trace_to_sched(r.violations[0]["trace"][1:] if init_txt is not None else r.violations[0]["trace"])["steps"]
+                        init_txt = last_state_text(r.out)
+                        core.log("stage %s of %s reached (%d steps so far)" % (stage, name, len(steps)))
+                    if not ok:
                         break
-                    sched = cc.trace_to_sched(r.violations[0]["trace"])
                     with open(os.path.join(outdir, name + ".json"), "w") as f:
                         json.dump({"name": name, "goal": goal, "powers": powers, "byz": byz, "maxround": mr,
-                                   "steps": sched["steps"]}, f, indent=1)
-                    core.log("prefix %s: %d steps" % (name, len(sched["steps"])))
+                                   "steps": steps}, f, indent=1)
+                    core.log("prefix %s: %d steps" % (name, len(steps)))
     finally:
         ctx.cleanup()
 
